@@ -70,3 +70,44 @@ Proof.
   - apply scalar_titles_fix. exact Hscal.
   - exists b1, b'. split; [exact Hadj|]. split; [exact Htr1|]. split; [exact Hbuild | exact Htoc].
 Qed.
+
+(* ---------- the same pipeline over the complete model of get_toc (Model/TocNamed.v), ANY catalog ---------- *)
+From LV Require Model.TocNamed Proofs.OutlineProofsNamed.
+
+Theorem reads_back_adjusted_nm d ops cid rid cat fuel fuel2 :
+  let b := add_all (fresh_bdoc d) ops in
+  let f := forest_of_ops (map sop_of ops) in
+  let g := map fix_tree f in
+  let m0 := d_max_id d in
+  f <> [] ->
+  max_id_bounds d ->
+  m0 + 1 + 2 * N.of_nat (fsize f) < U32_LIMIT ->
+  root_id d = Some cid ->
+  get_object_mut_id (d_objects d) cid = Some (rid, ODict cat) ->
+  distinct_titles f -> scalar_titles f ->
+  N.of_nat (fheight f) <= OUTLINE_DEPTH_LIMIT + 1 ->
+  (fheight f <= fuel)%nat ->
+  (fsize f <= fuel2)%nat ->
+  exists b1 b',
+    adjust_zero_pages (default_fuel b) b = OOk b1 /\
+    Forall (trepr (bookmark_table b1)) g /\
+    build_outline fuel b1 = OOk (Some (m0 + 1, 0), b') /\
+    let d2 := attach (base b') cid (m0 + 1, 0) in
+    (targets_are_pages d2 g -> TocNamed.get_toc fuel2 d2 = OutlineProofsNamed.toc_or_err d2 g).
+Proof.
+  intros b f g m0 Hne Hmax Hlim Hroot Hcat Hdist Hscal Hdeep Hfuel Hfuel2.
+  destruct (add_all_repr d ops) as [Hbase [Hroots [Htr Hdf]]]. fold b f in Hbase, Hroots, Htr, Hdf.
+  pose proof (forest_ids_nodup (map sop_of ops)) as Hnd. fold f in Hnd.
+  pose proof (forest_height_le (map sop_of ops)) as Hh. fold f in Hh. rewrite map_length in Hh.
+  destruct (adjust_zero_pages_ok b f (default_fuel b) Hroots Htr Hnd ltac:(rewrite Hdf; lia))
+    as [b1 [Hadj [Hb1 [Hr1 [_ [Htr1 _]]]]]].
+  fold g in Htr1.
+  assert (Hne_g : g <> []) by (unfold g; destruct f; [congruence | discriminate]).
+  pose proof (OutlineProofsNamed.reads_back_forest_nm b1 g cid rid cat fuel fuel2) as H. cbv zeta in H.
+  rewrite Hb1, Hbase in H. fold m0 in H. unfold g in H. rewrite fsize_fix, !fheight_fix in H. fold g in H.
+  destruct H as [b' [Hbuild Htoc]]; try assumption.
+  - rewrite Hr1, Hroots. unfold g. rewrite map_iid_fix_tree. reflexivity.
+  - unfold distinct_titles, g. rewrite titles_fix. exact Hdist.
+  - apply scalar_titles_fix. exact Hscal.
+  - exists b1, b'. split; [exact Hadj|]. split; [exact Htr1|]. split; [exact Hbuild | exact Htoc].
+Qed.
